@@ -3,5 +3,6 @@ import Babble.Props.C01
 import Babble.Props.C02
 import Babble.Props.C03
 import Babble.Props.C04
+import Babble.Props.C07
 import Babble.Props.C18
 import Babble.Props.C19
